@@ -89,14 +89,14 @@ func (g *FrameGeom) refChecksum(b []byte) uint32 {
 
 // FrameVerdict is what the exchange verifier says about one frame's bytes.
 type FrameVerdict struct {
-	OK        bool
-	Why       string
-	WireLen   uint32
-	WantLen   uint32
-	WireSum   uint32
-	WantSum   uint32
-	LenOK     bool
-	SumOK     bool
+	OK         bool
+	Why        string
+	WireLen    uint32
+	WantLen    uint32
+	WireSum    uint32
+	WantSum    uint32
+	LenOK      bool
+	SumOK      bool
 	ShortFrame bool
 }
 
